@@ -439,6 +439,32 @@ for lc in locales + ["zz-nonexistent"]:
     distinct.add(("locale", lc))
     c2.close_db_conn()
 samples.append({"locales": nloc, "numerals": len(nums)})
+# several contexts of different locales ALIVE AT THE SAME TIME: each keeps its own separators and grouping
+alive = {}
+for lc in ("en", "de", "hi", "fr", "fi", "zz-nonexistent"):
+    try:
+        with quiet_stdout():
+            alive[lc] = Wtp(lang_code=lc, quiet=True)
+        alive[lc].start_page("Tt")
+    except Exception:
+        pass
+single = {}
+for lc in alive:         # what each locale gives on its own (computed above, one context at a time) is recomputed here
+    with quiet_stdout():
+        c1 = Wtp(lang_code=lc, quiet=True)
+    c1.start_page("Tt")
+    single[lc] = [call_parser_function(c1, "formatnum", [n], lambda x: x) for n in nums[:12]]
+    c1.close_db_conn()
+for lc, c2 in alive.items():
+    evaluations += 1
+    with quiet_stdout():
+        now = [call_parser_function(c2, "formatnum", [n], lambda x: x) for n in nums[:12]]
+        backs = [call_parser_function(c2, "formatnum", [f, "R"], lambda x: x) for f in now]
+    if backs != nums[:12]:
+        fail("parserfns:formatnum_fn#R-inverts-formatnum", f"locale {lc} with other contexts alive: {nums[:12]} -> {now} -> {backs}",
+             {"locale": lc, "contexts_alive": sorted(alive)}, "several-contexts")
+for c2 in alive.values():
+    c2.close_db_conn()
 
 emit({"evaluations": evaluations, "distinct_nontrivial": len(distinct),
       "rule": "distinct reference values of #expr trees + distinct input strings of the string-function grid + "
